@@ -7,9 +7,9 @@ git checkout -q -- . ; git clean -fdq tests 2>/dev/null
 git apply $out/patch.diff || { echo "PATCH DOES NOT APPLY"; exit 2; }
 echo "== suite with change"; cargo test --offline 2>&1 | grep "test result" 
 cp $out/demo.rs tests/zz_demo.rs
-echo "== demo with change (must fail)"; cargo test --offline --test zz_demo 2>&1 | grep "test result\|panicked" | head -5
+echo "== demo with change (must fail)"; cargo test --offline --features verif_hooks --test zz_demo 2>&1 | grep "test result\|panicked" | head -5
 git apply -R $out/patch.diff
-echo "== demo without change (must pass)"; cargo test --offline --test zz_demo 2>&1 | grep "test result" 
+echo "== demo without change (must pass)"; cargo test --offline --features verif_hooks --test zz_demo 2>&1 | grep "test result" 
 git apply $out/patch.diff
 rm -f tests/zz_demo.rs
 git status --short
